@@ -960,3 +960,61 @@ def _comparisons(t, depth=0, pol=True):
 def _mutators_of(prog, classes):
     return [f for f in prog.functions.values() if f.cls in classes and f.body is not None and not f.is_pattern and
             (f.name.startswith('set_') or f.name in ('update', 'add', 'add_back', 'remove', 'add_track', 'remove_track'))]
+
+
+def transaction_control_only_in_guard(prog, cg, eff, chk, rid):
+    """Only the transaction guard class issues transaction-control statements (BEGIN, COMMIT, ROLLBACK, SAVEPOINT,
+    RELEASE, END): a hand-written `SAVEPOINT x` ... `ROLLBACK TO x` elsewhere is outside everything the guard-shape
+    and scope rules decide (ROLLBACK TO does not end the transaction: without RELEASE the connection stays inside
+    it, and all later work is lost when the last handle is released)."""
+    n = bad = 0
+    for f in prog.functions.values():
+        if f.body is None or f.is_pattern or not prog.in_repo(f.file):
+            continue
+        for s_ in eff.sites(f):
+            st = s_.stored_in
+            text = (st.text() if st is not None else '') or ''
+            head = text.strip().split(' ')[0].upper() if text.strip() else ''
+            if head not in ('BEGIN', 'COMMIT', 'ROLLBACK', 'SAVEPOINT', 'RELEASE', 'END'):
+                continue
+            n += 1
+            short = '::'.join((f.qualname or '').split('::')[-2:])
+            if f.cls == TXN:
+                chk.ok(rid, '%s issues %s (the guard class)' % (short, head), locstr(s_.node))
+            else:
+                bad += 1
+                chk.violation(rid, '%s|issues %s outside the guard class' % (short, head), locstr(s_.node),
+                              '%s issues `%s` itself: transaction control outside the guard class is not covered by the '
+                              'guard-shape and scope rules (a ROLLBACK TO without RELEASE leaves the transaction open)' % (
+                                  short, text.strip()[:60]))
+    if n < 3:
+        chk.fail_broken('%s: fewer than three transaction-control statements found (%d) - the guard class was not seen' % (rid, n))
+    return n
+
+
+def no_pattern_match_in_writes(prog, cg, eff, chk, rid):
+    """Which rows a DELETE / UPDATE touches is decided by equality on keys, never by LIKE / GLOB against text the
+    caller supplied or the database holds: LIKE is case-insensitive and treats `_` and `%` in the text as wildcards,
+    so rows of other crates / tracks whose names merely resemble the pattern are hit as well."""
+    n = 0
+    for f in prog.functions.values():
+        if f.body is None or f.is_pattern or not prog.in_repo(f.file) or '/schema/' in (f.file or ''):
+            continue
+        for s_ in eff.sites(f):
+            st = s_.stored_in
+            if st is None or st.kind not in ('delete', 'update'):
+                continue
+            n += 1
+            text = ' ' + (st.text() or '').upper() + ' '
+            short = '::'.join((f.qualname or '').split('::')[-2:])
+            m = re.search(r'\b(NOT\s+)?(LIKE|GLOB)\s+(\?|[A-Z_]+\s*\|\|)', text)
+            if m:
+                chk.violation(rid, '%s|%s selects rows by %s' % (short, st.kind.upper(), m.group(2)), locstr(s_.node),
+                              '%s: `%s` selects the rows it changes by %s against a bound / computed pattern: names that '
+                              'differ only in case, or names containing _ or %%, match rows of other objects' % (
+                                  short, (st.text() or '')[:90], m.group(2)))
+            else:
+                chk.ok(rid, '%s: %s of %s selects its rows without pattern matching' % (short, st.kind, st.table), locstr(s_.node))
+    if n < 20:
+        chk.fail_broken('%s: only %d DELETE / UPDATE statements found' % (rid, n))
+    return n
